@@ -86,10 +86,19 @@ static LOG: [AtomicU32; LOGCAP] = [const { AtomicU32::new(0) }; LOGCAP];
 static LOGN: AtomicUsize = AtomicUsize::new(0);
 static DELAY_MODE: AtomicU32 = AtomicU32::new(0); // 0 none, 1 native spins/yields, 2 miri yields
 static POINT_HITS: [AtomicU32; 40] = [const { AtomicU32::new(0) }; 40];
+// directed mode (DELAY_MODE 3): thread HOLD_T stalls at its HOLD_K-th hook event until every other worker has finished
+// its operations (bounded), i.e. one chosen preemption per execution, enumerated over all (thread, event) placements
+static HOLD_T: AtomicU32 = AtomicU32::new(0);
+static HOLD_K: AtomicU32 = AtomicU32::new(0);
+static WORKERS: AtomicU32 = AtomicU32::new(0);
+static DONE_CNT: AtomicU32 = AtomicU32::new(0);
+static HELD: AtomicU32 = AtomicU32::new(0);
+static HOLD_TIMEOUTS: AtomicU32 = AtomicU32::new(0);
 
 thread_local! {
     static TIDX: std::cell::Cell<u32> = const { std::cell::Cell::new(0) };
     static TRNG: std::cell::Cell<u64> = const { std::cell::Cell::new(0) };
+    static EVK: std::cell::Cell<u32> = const { std::cell::Cell::new(0) };
 }
 
 fn trand() -> u64 {
@@ -112,6 +121,29 @@ fn hook(point: u32) {
         POINT_HITS[point as usize].fetch_add(1, Relaxed);
     }
     match DELAY_MODE.load(Relaxed) {
+        3 => {
+            let k = EVK.with(|e| {
+                let v = e.get();
+                e.set(v + 1);
+                v
+            });
+            if t != 0 && t == HOLD_T.load(Relaxed) && k == HOLD_K.load(Relaxed) {
+                HELD.fetch_add(1, Relaxed);
+                let others = WORKERS.load(Relaxed).saturating_sub(1);
+                let mut spins = 0u32;
+                while DONE_CNT.load(Relaxed) < others {
+                    spins += 1;
+                    if spins % 64 == 0 {
+                        std::thread::yield_now();
+                    }
+                    if spins > 2_000_000 {
+                        HOLD_TIMEOUTS.fetch_add(1, Relaxed);
+                        break;
+                    }
+                    std::hint::spin_loop();
+                }
+            }
+        }
         1 => {
             let r = trand();
             // widen the promotion-race window: after the tagged load / before the CAS
@@ -193,6 +225,7 @@ fn run_thread(tid: u32, ops: &[Op], mut own: Vec<H>, shared_ref: Option<&Bytes>,
     let _scope = vharness::ledger::Scope::new(_tag);
     TIDX.with(|t| t.set(tid));
     TRNG.with(|r| r.set(mix2(seed, tid as u64 + 1)));
+    EVK.with(|e| e.set(0));
     let mut out = ThreadOut::default();
     // random initial skew
     if DELAY_MODE.load(Relaxed) == 1 {
@@ -433,6 +466,7 @@ fn run_thread(tid: u32, ops: &[Op], mut own: Vec<H>, shared_ref: Option<&Bytes>,
     while let Some(h) = own.pop() {
         drop(h);
     }
+    DONE_CNT.fetch_add(1, Relaxed);
     // exclusive results must still hold what this thread wrote
     for h in &out.kept {
         match h {
@@ -459,10 +493,13 @@ struct ExecResult {
     copies: u32,
     cas_lost: bool,
     events: usize,
+    per_thread: [u32; 10],
 }
 
 fn execute(p: &Prog, seed: u64, tag: u32) -> ExecResult {
     LOGN.store(0, Relaxed);
+    DONE_CNT.store(0, Relaxed);
+    WORKERS.store(p.threads.len() as u32, Relaxed);
     let mut d = data();
     let nt = p.threads.len();
     let mut owns: Vec<Vec<H>> = (0..nt).map(|_| Vec::new()).collect();
@@ -610,14 +647,19 @@ fn execute(p: &Prog, seed: u64, tag: u32) -> ExecResult {
     let n = LOGN.load(Relaxed).min(LOGCAP);
     let mut sig = 0u64;
     let mut cas_lost = false;
+    let mut per_thread = [0u32; 10];
     for e in LOG.iter().take(n) {
         let v = e.load(Relaxed);
         sig = fnv_u64(sig, v as u64);
         if v & 0xff == 3 {
             cas_lost = true;
         }
+        let t = (v >> 8) as usize;
+        if t < 10 {
+            per_thread[t] += 1;
+        }
     }
-    ExecResult { errs, sig, wins: wins.len(), copies, cas_lost, events: n }
+    ExecResult { errs, sig, wins: wins.len(), copies, cas_lost, events: n, per_thread }
 }
 
 // ------------------------------------------------------------------ program generation
@@ -665,7 +707,11 @@ fn main() {
     let progs = a.usize("progs", 100);
     let reps = a.usize("reps", if a.mode == "miri" { 1 } else { 200 });
     let only = a.get("only").map(|v| v.parse::<usize>().unwrap());
-    DELAY_MODE.store(if !hooked || a.flag("no-delays") { 0 } else if a.mode == "miri" { 2 } else { 1 }, Relaxed);
+    let base_mode = if !hooked || a.flag("no-delays") { 0 } else if a.mode == "miri" { 2 } else { 1 };
+    DELAY_MODE.store(base_mode, Relaxed);
+    // after the randomly delayed repetitions: one execution per (thread, hook event) placement in which that thread
+    // is held at that event until all others have finished -- every single-preemption schedule of the program
+    let directed = a.flag("directed") && hooked && a.mode != "miri";
     util::warm_up();
     let mut o = Obs::new();
     o.add("hook_active", hooked as u64);
@@ -690,7 +736,23 @@ fn main() {
         let mut cas_lost = 0u64;
         let mut wins = 0u64;
         let mut copies = 0u64;
-        for rep in 0..reps {
+        let mut maxev = [0u32; 10];
+        let mut plan: Vec<(u32, u32)> = Vec::new();
+        let mut rep = 0usize;
+        loop {
+            let dir = if rep < reps { None } else { plan.get(rep - reps).cloned() };
+            if rep >= reps && dir.is_none() {
+                break;
+            }
+            match dir {
+                Some((t, k)) => {
+                    HOLD_T.store(t, Relaxed);
+                    HOLD_K.store(k, Relaxed);
+                    DELAY_MODE.store(3, Relaxed);
+                    o.inc("directed_executions");
+                }
+                None => DELAY_MODE.store(base_mode, Relaxed),
+            }
             #[cfg(feature = "ledger")]
             {
                 tag += 1;
@@ -742,10 +804,23 @@ fn main() {
                 } else {
                     "wrong-bytes"
                 };
-                o.viol("C05", &format!("{kind}:{}", SETUP_NAMES[p.setup as usize]), &case, &format!("{e} (and {} more) in program {name} rep {rep}", res.errs.len() - 1));
+                o.viol("C05", &format!("{kind}:{}", SETUP_NAMES[p.setup as usize]), &case, &format!("{e} (and {} more) in program {name} rep {rep}{}", res.errs.len() - 1, dir.map(|(t, k)| format!(" (directed: thread {t} held at its hook event {k})")).unwrap_or_default()));
                 break;
             }
+            for (m, v) in maxev.iter_mut().zip(res.per_thread.iter()) {
+                *m = (*m).max(*v);
+            }
+            rep += 1;
+            if rep == reps && directed && !big {
+                for t in 1..=p.threads.len().min(9) {
+                    for k in 0..maxev[t].min(32) {
+                        plan.push((t as u32, k));
+                    }
+                }
+                o.add("directed_placements", plan.len() as u64);
+            }
         }
+        DELAY_MODE.store(base_mode, Relaxed);
         o.inc("programs");
         o.add("distinct_signatures", sigs.len() as u64);
         o.add("cas_lost_executions", cas_lost);
@@ -763,6 +838,8 @@ fn main() {
             o.sample(format!("{case}: {name}: {} executions, {} distinct hook-event interleavings, promotion CAS lost in {cas_lost}, zero-copy exclusive winners {wins}, copies {copies}", reps, sigs.len()));
         }
     }
+    o.add("directed_holds_taken", HELD.load(Relaxed) as u64);
+    o.add("directed_hold_timeouts", HOLD_TIMEOUTS.load(Relaxed) as u64);
     for (i, h) in POINT_HITS.iter().enumerate() {
         let v = h.load(Relaxed);
         if v > 0 {
